@@ -315,7 +315,13 @@ struct Exec {
                     st.life = L_INIT; st.backend = lib_backend(k, st.h); st.keyed = false; st.tweaked = false;
                     memset(st.ctr, 0, 16); memset(st.tweak, 0, 16); model_reset_stream(st);
                     ob.backend = st.backend;
+                    {   // public handle fields after a successful init: back-end identity, context placement, advertised size
+                        ObjHandleView *hv = (ObjHandleView *)st.h; uint64_t off = g_heap.in_arena(hv->ctx) ? (uint64_t)((uint8_t *)hv->ctx - g_heap.arena) : ~0ULL; uint64_t ps = is_par(k) ? lib_parallel_size(k, st.h) : 0;
+                        ob.snap.resize(20); int be32 = st.backend; memcpy(&ob.snap[0], &be32, 4); memcpy(&ob.snap[4], &off, 8); memcpy(&ob.snap[12], &ps, 8);
+                        if (is_par(k) && on(CK_OUT) && (ps == 0 || ps % bs != 0)) { violate("parallel-size", strf("%s: advertised parallel size %llu is not a positive multiple of the block size %u", op_brief(plan, o).c_str(), (unsigned long long)ps, bs)); return; }
+                    }
                     if (on(CK_SELECT)) check_selection(st, o);
+                    if (stop) return;
                 } else {
                     st.life = L_FAILED; st.keyed = false;
                     if (on(CK_FAILINIT)) {
@@ -367,6 +373,11 @@ struct Exec {
             break;
         case OP_ZERO: st.life = L_ZEROED; st.keyed = false; break;
         case OP_SETKEY: case OP_SETTKEY:
+            if (ret != 0 && obj && is_ctr(k) && st.data_since_reset) {
+                unsigned batch = ctr_batch_bytes(k, st.backend); unsigned inb = (unsigned)(st.stream_pos % batch);
+                if (inb == 0) PROBE("rekey.at-batch-boundary"); else if (inb % bs == 0) PROBE("rekey.inside-batch.whole-blocks-consumed"); else PROBE("rekey.inside-batch.inside-a-block");
+            }
+            if (ret != 0 && obj && !is_mantis(k) && o.size % bs != 0) PROBE("key.partial-length");
             if (ret != 0 && obj) {
                 st.keyed = true; st.tweaked = (o.code == OP_SETTKEY);
                 st.key = o.a; st.keysize = o.size; st.rounds = o.rounds; st.mode = (k == MCTR) ? 1 : o.mode;
@@ -377,6 +388,9 @@ struct Exec {
             break;
         case OP_SETTWEAK:
             if (ret != 0 && obj) {
+                if (!pa) PROBE("tweak.null"); else if (o.size < bs) PROBE("tweak.short");
+                if (pa && memcmp(st.tweak, o.a.data(), std::min<size_t>(o.size, o.a.size())) == 0 && o.size == bs) PROBE("tweak.same-value-again");
+                if (is_ctr(k) && st.data_since_reset) { unsigned batch = ctr_batch_bytes(k, st.backend); if (st.stream_pos % batch) PROBE("tweak-change.inside-batch"); else PROBE("tweak-change.at-batch-boundary"); }
                 memset(st.tweak, 0, 16);
                 if (pa) memcpy(st.tweak, o.a.data(), o.size < o.a.size() ? o.size : o.a.size());
                 if (is_ctr(k)) { if (st.data_since_reset) st.stream_ok = false; st.ksoff = bs; }
@@ -385,6 +399,8 @@ struct Exec {
             break;
         case OP_SETCTR:
             if (ret != 0 && obj) {
+                if (!pa) PROBE("counter.null"); else if (o.size == 0) PROBE("counter.length-0"); else if (o.size < bs) PROBE("counter.short");
+                if (st.ksoff < bs) PROBE("counter.set-with-keystream-left");
                 memset(st.ctr, 0, 16);
                 if (pa && o.size) memcpy(st.ctr + bs - o.size, o.a.data(), o.size);
                 model_reset_stream(st);
@@ -395,6 +411,17 @@ struct Exec {
             break;
         case OP_ENC:
             if (ret != 0 && obj) {
+                {
+                    unsigned batch = ctr_batch_bytes(k, st.backend); uint64_t endpos = st.stream_pos + o.a.size();
+                    if (o.a.empty()) { if (st.ksoff >= bs) PROBE("frag.zero-length.buffer-empty"); else PROBE("frag.zero-length.buffer-half-used"); }
+                    else if (endpos % batch == 0) PROBE("frag.ends-on-batch-boundary"); else if (endpos % batch == batch - 1) PROBE("frag.ends-one-before-batch-boundary"); else if (endpos % batch == 1) PROBE("frag.ends-one-after-batch-boundary");
+                    if (o.a.size() > batch) PROBE("frag.longer-than-a-batch");
+                    if (o.flags & F_INPLACE) PROBE("frag.in-place");
+                    if (batch > bs && !o.a.empty()) {   // does the counter wrap to zero somewhere inside the lanes of one batch?
+                        uint8_t c2[16]; memcpy(c2, st.ctr, 16); unsigned ahead = (unsigned)((batch - (st.stream_pos % batch)) / bs);
+                        for (unsigned q = 0; q < ahead && q < 8; ++q) { bool allff = true; for (unsigned z = 0; z < bs; ++z) allff &= c2[z] == 0xFF; if (allff) { PROBE("ctr.wrap-inside-simd-batch"); break; } be_add(c2, bs, 1); }
+                    }
+                }
                 Bytes expb(o.a.size());
                 bool okm = model_call([&] {
                     for (size_t q = 0; q < o.a.size(); ++q) {
@@ -494,6 +521,13 @@ struct Exec {
         if (on(CK_WIPE)) for (auto &b : g_heap.blocks) if (b.free_op == i && b.owner_slot != -2 && !b.zero_at_free) {
             violate("not-wiped", strf("%s released block #%d (%zu bytes, %s back end) with non-zero content at offset %zu", op_brief(plan, o).c_str(), b.id, b.size, backend_before == 2 ? "256-bit" : backend_before == 1 ? "128-bit" : "generic", b.first_nonzero_at_free)); return; }
         g_heap.scan_nonzero();
+        if (o.code == OP_CLEANUP && obj && life_before == L_INIT && (on(CK_WIPE) || on(CK_HEAP))) {
+            static const char *BE[] = {"generic", "vec128", "vec256"};
+            g_probes.hit(strf("cleanup.%s.%s.%s", KIND_NAME[k], BE[backend_before < 0 ? 0 : backend_before > 2 ? 2 : backend_before], keyed_before ? (ksoff_before < bs ? "mid-stream" : "keyed") : "unkeyed"));
+        }
+        if (exp == 0 && !(o.flags & F_NULLOBJ) && on(CK_UNCHANGED)) g_probes.hit(strf("rejected.%s.%s.%s", OP_NAME[o.code], is_obj(k) ? LIFE_NAME[life_before] : "schedule", is_obj(k) && life_before == L_INIT ? (keyed_before ? (is_ctr(k) && ksoff_before < bs ? "mid-stream" : "keyed") : "fresh") : "-"));
+        if (exp == 0 && (o.flags & F_NULLOBJ) && on(CK_UNCHANGED)) g_probes.hit(strf("rejected.%s.null-object", OP_NAME[o.code]));
+        if (o.code == OP_INIT && o.failalloc && on(CK_FAILINIT)) g_probes.hit(strf("failinit.%s.prefill%d.%s", KIND_NAME[k], o.prefill, ret == 0 ? "failed" : "no-fault-fired"));
 
         ob.life = st.life;
         // --- log + coverage
